@@ -38,28 +38,33 @@ def build_api(r, reserved_words, use_reserved=True, hostile=False):
     rep.field("big", 5, "int64")
     svc = f.service(SVC, host="tc.example.com")
 
-    def request_message(name):
+    def request_message(name, allow_required=True):
+        # allow_required=False: a request message WITHOUT any REQUIRED field (List / Search / custom-verb shapes): the
+        # emitted class then has no defaults table and no _get_unset_required_fields
+        def rq(p):
+            return allow_required and r.random() < p
+
         m = f.message(name + "Request")
         info = {"strings": [], "msgs": []}
-        m.field("name", 1, "string", required=r.random() < 0.6); info["strings"].append("name")
-        m.field("parent", 2, "string", required=r.random() < 0.4); info["strings"].append("parent")
-        m.field(kw, 3, "string", required=r.random() < 0.5); info["strings"].append(kw)
-        m.field("sub", 4, sub.fqn, required=r.random() < 0.4); info["msgs"].append("sub")
+        m.field("name", 1, "string", required=rq(0.6)); info["strings"].append("name")
+        m.field("parent", 2, "string", required=rq(0.4)); info["strings"].append("parent")
+        m.field(kw, 3, "string", required=rq(0.5)); info["strings"].append(kw)
+        m.field("sub", 4, sub.fqn, required=rq(0.4)); info["msgs"].append("sub")
         if r.random() < 0.6:
-            m.field("book", 5, sub.fqn, required=r.random() < 0.3); info["msgs"].append("book")
+            m.field("book", 5, sub.fqn, required=rq(0.3)); info["msgs"].append("book")
         if r.random() < 0.5:
-            m.field(kw2, 6, sub.fqn, required=r.random() < 0.3); info["msgs"].append(kw2)
+            m.field(kw2, 6, sub.fqn, required=rq(0.3)); info["msgs"].append(kw2)
         n = 10
         for t in r.sample(list(SCALARS), r.randint(3, 7)):
             mode = r.random()
-            m.field("f_" + t, n, t, required=r.random() < 0.6, optional=mode < 0.25, repeated=0.25 <= mode < 0.4)
+            m.field("f_" + t, n, t, required=rq(0.6), optional=mode < 0.25, repeated=0.25 <= mode < 0.4)
             n += 1
         if r.random() < 0.7:
-            m.field("kind", 30, ("enum", kind), required=r.random() < 0.5)
+            m.field("kind", 30, ("enum", kind), required=rq(0.5))
         if r.random() < 0.4:
             m.field("kinds", 31, ("enum", kind), repeated=True)
         if r.random() < 0.6:
-            m.field("tags", 32, "string", repeated=True, required=r.random() < 0.4)
+            m.field("tags", 32, "string", repeated=True, required=rq(0.4))
         if r.random() < 0.5:
             m.map_field("labels", 33, "string", "string")
         if r.random() < 0.3:
@@ -69,13 +74,13 @@ def build_api(r, reserved_words, use_reserved=True, hostile=False):
         if r.random() < 0.35:
             m.field("update_mask", 36, ".google.protobuf.FieldMask")
         if r.random() < 0.2:
-            m.field("stamp", 37, ".google.protobuf.Timestamp", required=r.random() < 0.3)
+            m.field("stamp", 37, ".google.protobuf.Timestamp", required=rq(0.3))
         if r.random() < 0.4:
-            m.field("page_size", 38, "int32", required=r.random() < 0.7)
+            m.field("page_size", 38, "int32", required=rq(0.7))
         # names with a letter after a digit in a later word: str.capitalize() and str.title() differ on them
         # (crc32c -> Crc32c / Crc32C), so the lowerCamel key of the defaults table can drift from the JSON name
         for k, nm in enumerate(r.sample(DIGIT_NAMES, r.randint(1, 2))):
-            m.field(nm, 40 + k, r.choice(["int32", "uint32", "string", "int64", "bool"]), required=r.random() < 0.85)
+            m.field(nm, 40 + k, r.choice(["int32", "uint32", "string", "int64", "bool"]), required=rq(0.85))
         return m, info
 
     def uri(info, version="v1"):
@@ -106,8 +111,9 @@ def build_api(r, reserved_words, use_reserved=True, hostile=False):
 
     nmeth = r.randint(4, 7)
     names = ["Alpha", "Beta", "Gamma", "Delta", "Epsilon", "Zeta", "Eta"][:nmeth]
-    for nm in names:
-        m, info = request_message(nm)
+    bare = r.randrange(nmeth)          # at least one bound method per API whose request declares no REQUIRED field
+    for pos, nm in enumerate(names):
+        m, info = request_message(nm, allow_required=(pos != bare and r.random() < 0.85))
         k = r.random()
         more = []
         for j in range(0 if k < 0.5 else 1 if k < 0.8 else 2):
